@@ -5,7 +5,7 @@ E1 : LP of kPathCover == PathEnc.encode_kpc (the path rows every DAG class inher
 E2 : the property evaluated on get_solution() of every exported model class (edge and node mode)."""
 import collections
 import networkx as nx
-import common, gen, gen2, zoo, props, lpdump, e1
+import common, gen, gen2, zoo, props, lpdump, e1, vcheck
 
 LEVEL = "proof"
 EXPLANATION = ("Props/C01.v: (i) Aug: the augmented graph attaches the synthetic source exactly to in-degree-0 nodes and additional "
@@ -154,9 +154,11 @@ def check_solution(ctx, info, m, sol):
     routes = sol[rk]
     for r in routes:
         why = props.valid_route(G, r, starts=info["starts"], ends=info["ends"], simple=not name.endswith("Cycles"))
+        # decided by the verified checker Checkers.valid_route_b (the Python evaluation is only cross-checked)
+        VB.route(G, r, info["starts"], info["ends"], not name.endswith("Cycles"), why is None,
+                 f"{name}: returned route {r} is not a valid source-to-sink route of the caller's graph: {why}", rep)
         if why:
-            key = None
-            ctx.report(f"{name}: returned route {r} is not a valid source-to-sink route of the caller's graph: {why}", rep, key=key); return
+            return
     for wk in ("weights", "slacks"):
         if wk in sol:
             if len(sol[wk]) != len(routes):
@@ -228,7 +230,12 @@ def e2_greedy_bound(ctx, n):
                                {"edges": [[u, v, d] for u, v, d in G.edges(data=True)], "k": k, "solution": sol})
 
 
+VB = None
+
+
 def run(ctx):
+    global VB
+    VB = vcheck.Batch(ctx)
     ctx.rule = ("E3a: random DAG/cyclic graphs with additional starts/ends; E3b: 0/1 layer assignments from random s-t paths of random "
                 "DAGs (incl. empty layers); E1: kPathCover LPs; E2: every exported model class on random small instances (edge and "
                 "node mode, ignore sets, constraints, additional starts/ends). Non-trivial: graph with >= 2 edges / path with >= 2 inner nodes.")
@@ -237,3 +244,4 @@ def run(ctx):
     e1_kpc(ctx, ctx.budget(60, 1500))
     e2_all(ctx, ctx.budget(240, 6000))
     e2_greedy_bound(ctx, ctx.budget(80, 2000))
+    VB.flush()
